@@ -30,6 +30,7 @@ import (
 	"net/http"
 	"net/http/httputil"
 	"net/url"
+	"strconv"
 	"sort"
 	"strings"
 	"sync"
@@ -594,7 +595,7 @@ func NewResponse(res *http.Response, withBody bool) (*Response, error) {
 	r := &Response{
 		HTTPVersion: res.Proto,
 		Status:      res.StatusCode,
-		StatusText:  http.StatusText(res.StatusCode),
+		StatusText:  statusText(res),
 		HeadersSize: -1,
 		BodySize:    res.ContentLength,
 		Headers:     headers(proxyutil.ResponseHeader(res).Map()),
@@ -764,6 +765,17 @@ func trailerHeader(trailer http.Header) *Header {
 	sort.Strings(keys)
 
 	return &Header{Name: "Trailer", Value: strings.Join(keys, ",")}
+}
+
+// statusText returns the reason phrase of the response's status line; only a
+// response without a status line of its own gets net/http's text for the code.
+func statusText(res *http.Response) string {
+	if res.Status == "" {
+		return http.StatusText(res.StatusCode)
+	}
+
+	text := strings.TrimPrefix(res.Status, strconv.Itoa(res.StatusCode))
+	return strings.TrimPrefix(text, " ")
 }
 
 func headers(hs http.Header) []Header {
